@@ -6,6 +6,7 @@ import (
 	"go/token"
 	"go/types"
 	"sort"
+	"strconv"
 	"strings"
 
 	"golang.org/x/tools/go/ssa"
@@ -228,6 +229,24 @@ func (rt *router) evalBool(fr *routeFrame, v ssa.Value) bool {
 		}
 	case *ssa.BinOp:
 		l, r := rt.desc(fr, x.X, 0), rt.desc(fr, x.Y, 0)
+		if li, err1 := strconv.ParseInt(l, 10, 64); err1 == nil {
+			if ri, err2 := strconv.ParseInt(r, 10, 64); err2 == nil {
+				switch x.Op {
+				case token.EQL:
+					return li == ri
+				case token.NEQ:
+					return li != ri
+				case token.LSS:
+					return li < ri
+				case token.LEQ:
+					return li <= ri
+				case token.GTR:
+					return li > ri
+				case token.GEQ:
+					return li >= ri
+				}
+			}
+		}
 		switch x.Op {
 		case token.EQL:
 			if l == r {
@@ -318,10 +337,15 @@ func (rt *router) simulate(fr *routeFrame) {
 				}
 			case *ssa.If:
 				var c bool
-				if loopCond(b, x.Cond) {
-					// counted / slice-range loop: one generic iteration
+				if stay, ok := loopStaySucc(b, x.Cond); ok {
+					// a condition on the induction variable of a counted / slice-range loop (loop test or
+					// bounds break): one generic iteration — first time stay in the loop, afterwards leave
 					fr.ranges[x.Cond]++
-					c = fr.ranges[x.Cond] == 1
+					if fr.ranges[x.Cond] == 1 {
+						c = stay == 0
+					} else {
+						c = stay != 0
+					}
 				} else {
 					c = rt.evalBool(fr, x.Cond)
 				}
@@ -375,6 +399,10 @@ func (rt *router) call(fr *routeFrame, c *ssa.Call) {
 		return
 	}
 	if g == nil || !rt.p.InSubject(g) {
+		return
+	}
+	if strings.HasSuffix(g.Name(), "Msg") && g.Signature.Recv() == nil {
+		rt.run.events = append(rt.run.events, "MSG["+g.Name()+"]")
 		return
 	}
 	if name, ok := rt.primitive[g]; ok {
@@ -558,10 +586,10 @@ func ObjectRouting(p *core.Prog, r *core.Report) {
 		// additionalProperties as a schema: required for a member that is neither declared nor matched
 		enabled := true
 		need := map[string]bool{
-			"has(recv.Properties," + K + ")":          false,
-			"recv.AdditionalProperties==nil":          false,
-			"recv.AdditionalProperties.Schema==nil":   false,
-			"recv.AdditionalProperties.Allows":        true,
+			"has(recv.Properties," + K + ")":                    false,
+			"recv.AdditionalProperties==nil":                    false,
+			"recv.AdditionalProperties.Schema==nil":             false,
+			"recv.AdditionalProperties.Allows":                  true,
 			"ret0:validatePatternProperty(" + K + "," + V + ")": false,
 			"ret1:validatePatternProperty(" + K + "," + V + ")": false,
 		}
@@ -664,4 +692,157 @@ func loopCond(b *ssa.BasicBlock, cond ssa.Value) bool {
 		return dep(bo.X, 0) || dep(bo.Y, 0)
 	}
 	return false
+}
+
+// loopStaySucc: for a branch on the induction variable of a loop, the successor index that stays in the loop.
+func loopStaySucc(b *ssa.BasicBlock, cond ssa.Value) (int, bool) {
+	if !loopCond(b, cond) {
+		return 0, false
+	}
+	// smallest natural loop containing b
+	var loop map[*ssa.BasicBlock]bool
+	for _, L := range allLoopsOf(b.Parent()) {
+		if L[b] && (loop == nil || len(L) < len(loop)) {
+			loop = L
+		}
+	}
+	if loop == nil || len(b.Succs) != 2 {
+		return 0, false
+	}
+	in0, in1 := loop[b.Succs[0]], loop[b.Succs[1]]
+	switch {
+	case in0 && !in1:
+		return 0, true
+	case in1 && !in0:
+		return 1, true
+	}
+	return 0, false
+}
+
+// SliceRouting — the same enumeration for (*schemaSliceValidator).Validate: which schema a generic element is
+// validated against in every configuration of items (single schema / tuple) and additionalItems.
+func SliceRouting(p *core.Prog, r *core.Report) {
+	const rule = "ROUTING"
+	entry := p.Func("(*schemaSliceValidator).Validate")
+	if entry == nil {
+		r.Unk(rule, "slice:entry", "-", "(*schemaSliceValidator).Validate not found")
+		return
+	}
+	rt := &router{p: p, recvType: core.NamedOf(entry.Signature.Recv().Type()), primitive: map[*ssa.Function]string{}, relevant: func(*ssa.Function) bool { return false }}
+	// record the message constructors of the package as events too
+	type viol struct{ what, cfg string }
+	var viols []viol
+	nNormal := 0
+	var aborted []string
+	total := rt.enumerate(entry, []string{"recv", "arg1"}, func(run *routeRun) {
+		if run.abort == "panic" {
+			return
+		}
+		if run.abort != "" {
+			aborted = append(aborted, run.abort)
+			return
+		}
+		if v, ok := run.atoms["arg1==nil"]; ok && v {
+			return
+		}
+		nNormal++
+		at := func(a string) (val, known bool) { val, known = run.atoms[a]; return }
+		find := func(sub string) (string, bool, bool) {
+			for a, v := range run.atoms {
+				if strings.Contains(a, sub) {
+					return a, v, true
+				}
+			}
+			return "", false, false
+		}
+		hasEv := func(prefix string) bool {
+			for _, e := range run.events {
+				if strings.HasPrefix(e, prefix) {
+					return true
+				}
+			}
+			return false
+		}
+		var ks []string
+		for a, v := range run.atoms {
+			if v {
+				ks = append(ks, a)
+			} else {
+				ks = append(ks, "!"+a)
+			}
+		}
+		sort.Strings(ks)
+		cfg := strings.Join(ks, " ∧ ")
+		// possibly(a, want): the configuration does not contradict atom a == want
+		possibly := func(a string, want bool) bool { v, known := at(a); return !known || v == want }
+		itemsSet := possibly("recv.Items==nil", false)
+		list := itemsSet && possibly("recv.Items.Schema==nil", false)
+		_, tupV, tupKnown := find("0<ret0:len(recv.Items.Schemas)")
+		tuple := itemsSet && (!tupKnown || tupV)
+		tupleSure := tupKnown && tupV
+		if n, known := at("recv.Items==nil"); !known || n {
+			tupleSure = false
+		}
+		// items: one schema for every element
+		if v, known := at("recv.Items.Schema==nil"); known && !v {
+			if n, k := at("recv.Items==nil"); k && !n && !hasEv("VALIDATE[recv.Items.Schema](") {
+				viols = append(viols, viol{"items-as-schema: elements are not validated against items", cfg})
+			}
+		}
+		_ = list
+		// tuple: element i against Schemas[i]
+		if tupleSure && !hasEv("VALIDATE[recv.Items.Schemas[") {
+			viols = append(viols, viol{"items-as-tuple: the element at a position inside the tuple is not validated against the schema of that position", cfg})
+		}
+		// additionalItems
+		_, moreV, moreKnown := find("<ret0:Len(")
+		addSet, addKnown := at("recv.AdditionalItems==nil")
+		addPresent := addKnown && !addSet
+		more := moreKnown && moreV
+		if v, known := at("recv.AdditionalItems.Schema==nil"); known && !v && addPresent && more && tupleSure {
+			if !hasEv("VALIDATE[recv.AdditionalItems.Schema](") {
+				viols = append(viols, viol{"additionalItems-as-schema: an element beyond the tuple is not validated against additionalItems", cfg})
+			}
+		}
+		if hasEv("VALIDATE[recv.AdditionalItems.Schema](") && !(addPresent && tuple) {
+			viols = append(viols, viol{"additionalItems applied although there is no tuple (it only constrains the elements following a tuple)", cfg})
+		}
+		if al, known := at("recv.AdditionalItems.Allows"); known && !al && addPresent && more && tupleSure && !hasEv("MSG[arrayDoesNotAllowAdditionalItemsMsg]") {
+			viols = append(viols, viol{"additionalItems:false: an element beyond the tuple is not rejected", cfg})
+		}
+		if hasEv("MSG[arrayDoesNotAllowAdditionalItemsMsg]") {
+			al, known := at("recv.AdditionalItems.Allows")
+			if !(addPresent && more && tuple && known && !al) {
+				viols = append(viols, viol{"'additional items not allowed' is raised although additionalItems allows them, there is no tuple, or there is no element beyond it", cfg})
+			}
+		}
+	})
+	if total > 20000 {
+		r.Unk(rule, "slice:enumeration:complete", p.Pos(entry.Pos()), "more than 20000 configurations: the enumeration was cut off")
+	}
+	if len(aborted) > 0 {
+		r.Unk(rule, "slice:enumeration", p.Pos(entry.Pos()), "some runs could not be completed: "+strings.Join(uniq(aborted), "; "))
+	}
+	r.Count("slice_routing_configurations", nNormal)
+	r.Floor("slice_routing_configurations", 8)
+	byWhat := map[string][]string{}
+	for _, v := range viols {
+		byWhat[v.what] = append(byWhat[v.what], v.cfg)
+	}
+	clauses := []string{"items-as-schema", "items-as-tuple", "additionalItems-as-schema", "additionalItems applied although", "additionalItems:false", "'additional items not allowed' is raised"}
+	names := []string{"items:schema", "items:tuple", "additionalItems:schema", "additionalItems:only-after-tuple", "additionalItems:false", "additionalItems:false:only-then"}
+	for k, cl := range clauses {
+		var hit string
+		n := 0
+		for w, cfgs := range byWhat {
+			if strings.HasPrefix(w, cl) {
+				hit, n = w+" — e.g. when "+cfgs[0], len(cfgs)
+			}
+		}
+		if n == 0 {
+			r.OK(rule, "slice:"+names[k], p.Pos(entry.Pos()), fmt.Sprintf("holds in each of the %d configurations enumerated", nNormal))
+		} else {
+			r.Bad(rule, "slice:"+names[k], p.Pos(entry.Pos()), fmt.Sprintf("in %d configurations: %s", n, hit))
+		}
+	}
 }
